@@ -168,7 +168,9 @@ impl<'frame> FrameSlice<'frame> {
     /// Reads and consumes a fixed number of bytes from the beginning of the frame,
     /// returning a subslice that encompasses them.
     ///
-    /// If this slice is empty, returns `Ok(None)`.
+    /// If this slice is empty and a nonzero number of bytes is requested, returns `Ok(None)`.
+    /// Requesting zero bytes always yields an empty subslice: a zero-length element
+    /// (e.g. an empty string that is the last element of a vector) is a value, not a null.
     /// Otherwise, if the slice does not contain enough data, it returns `Err`.
     /// If the operation fails then the slice remains unchanged.
     #[inline]
@@ -176,7 +178,7 @@ impl<'frame> FrameSlice<'frame> {
         &mut self,
         count: usize,
     ) -> Result<Option<FrameSlice<'frame>>, LowLevelDeserializationError> {
-        if self.is_empty() {
+        if self.is_empty() && count > 0 {
             return Ok(None);
         }
 
